@@ -27,9 +27,12 @@ def build(run):
             run.add(undecided(f"term.{c}.is_monotonic/subset", str(ex_)))
     run.add(static("term/monotonic.classes", sorted(mono_src) == sorted(C.MONOTONIC), f"is_monotonic() is True for {sorted(mono_src)}; contracts: {sorted(C.MONOTONIC)}"))
     for c in terms:
-        has = src.has_func("term", f"{c}.tsukamoto")
-        run.add(static(f"term.{c}/tsukamoto.override_iff_monotonic", has == (c in mono_src),
-                       f"{c}: overrides tsukamoto={has}, is_monotonic()={c in mono_src}", fn=f"term.{c}.tsukamoto"))
+        owner = src.resolve_method(c, "tsukamoto")[1]       # looked up through the MRO read from the source
+        has = owner != "Term"
+        own = src.has_func("term", f"{c}.tsukamoto")
+        run.add(static(f"term.{c}/tsukamoto.refuses_iff_not_monotonic", has == (c in mono_src) and (own or not has),
+                       f"{c}: tsukamoto resolves to {owner}.tsukamoto (own definition: {own}), is_monotonic()={c in mono_src}", fn=f"term.{c}.tsukamoto",
+                       meta={"replay": {"module": "contracts.terms", "func": "replay_refuses", "kwargs": {"cls": c, "monotonic": c in mono_src}, "vars": {}}}))
     base = src.func("term", "Term.tsukamoto")
     run.under_contract("term", "Term.tsukamoto", base)
     body = [s for s in base.body if not (isinstance(s, ast.Expr) and isinstance(s.value, ast.Constant))]
@@ -67,7 +70,7 @@ def build(run):
             run.add(Obl(f"{fq}/ensures.monotone", pre + [iny(y2), y.v <= y2.v] + ax.axioms(),
                         z3.And(z3.Implies(inc, xr.le(z, z2)), z3.Implies(dec, xr.ge(z, z2))), fn=fq, meta=dict(rp("tsukamoto.monotone", ["y", "y2"]), **uf())))
         except Unsupported as ex_:
-            run.add(undecided(f"{fq}/subset", f"outside the verified subset: {ex_}", fn=fq))
+            run.add(undecided(f"{fq}/subset", f"outside the verified subset: {ex_}", fn=fq, meta=rp("tsukamoto.elementwise", ["y", "y2"])))
 
 
 if __name__ == "__main__":
